@@ -14,7 +14,8 @@ ASSUME = [
     'times None/0..7); accumulator model without elimination, dosed directly or through the depot, observed at every '
     'half time unit; tolerance 1e-7',
     'for an indefinite regimen and no final time the table lists the first dose only (a finite table cannot do more)',
-    'dataset-derived regimens are judged by C14',
+    'dataset-derived regimens: the shared run of module Controller (see C14) is judged here on the clauses Regimen (dose rows -> '
+    'protocols) and AppliedRegimen (the protocol the solver ran with for every individual of a posterior built by the controller)',
 ]
 
 
@@ -37,20 +38,28 @@ def run(tier, seed):
     for fails, cnt in out['results']:
         v.failures(fails)
         v.merge_counters(cnt)
+    # regimens derived from a dataset: the shared Controller run, judged on its dosing clauses
+    from . import check_c14
+    ctl = cached('controller', tier, seed, lambda: check_c14._compute(tier, seed))
+    for fails, cnt in ctl['results']:
+        v.failures([f for f in fails if f['clause'] in ('Regimen', 'AppliedRegimen')])
+        v.count('controller_cases', cnt.get('cases', 0))
+        v.count('controller_cases_with_dose_rows', cnt.get('feat_has_dose_rows', 0))
     recs = out['records']
     for rec in recs[:1] + recs[len(recs) // 2:len(recs) // 2 + 1] + recs[-1:]:
         v.sample(rec)
     nt = sum(1 for r in recs if r['evperiod'] > 0)
     if v.counters.get('feat_indefinite_finite_final', 0) == 0 or v.counters.get('feat_dose_at_final_time', 0) == 0:
         raise MachineryError('vacuous run: boundary strata empty')
-    cov = dict(states=out['run']['states'], transitions=out['run']['transitions'],
-               traces_validated_against_impl=len(recs), evaluations=v.counters.get('evaluations', 0),
+    cov = dict(states=out['run']['states'] + sum(r['states'] for r in ctl['runs']),
+               transitions=out['run']['transitions'] + sum(r['transitions'] for r in ctl['runs']),
+               traces_validated_against_impl=len(recs) + v.counters.get('controller_cases', 0), evaluations=v.counters.get('evaluations', 0),
                distinct_nontrivial=nt, exhaustive=True,
                rule='TLC enumerates dose x start x duration x period x count x final time; each case is run with the '
                     'keyword regimen and with an explicit protocol, table through PredictiveModel and '
                     'PopulationPredictiveModel, delivery on a directly or indirectly dosed accumulator; non-trivial = '
                     'periodic regimen',
-               tlc_runs=[out['run']],
+               tlc_runs=[out['run']] + ctl['runs'],
                spec_negative_control='Dosing_asfound.cfg (final // period) refuted by TLC on TableIsApplied')
     return v.finish('model_checking', cov, ASSUME)
 
@@ -58,7 +67,12 @@ def run(tier, seed):
 def replay(path):
     from . import replay_dosing
     rep = json.load(open(path))
-    fails, _ = replay_dosing.replay_case((rep['case']['config'], rep['seed']))
+    if 'mode' in rep['case']:
+        from . import replay_controller
+        fails, _ = replay_controller.replay_case((rep['case']['config'], rep['case']['mode'], rep['seed']))
+        fails = [f for f in fails if f['clause'] in ('Regimen', 'AppliedRegimen')]
+    else:
+        fails, _ = replay_dosing.replay_case((rep['case']['config'], rep['seed']))
     for f in fails:
         print('VIOLATION property=%s replay=%s' % (PROP, path))
         print('  clause=%s manifestation=%s detail=%s' % (f['clause'], f['manifestation'], str(f['detail'])[:400]))
